@@ -177,6 +177,8 @@ def check(chk):
     chk.info["literal_sites_examined"] = n_sites
     chk.info["modules_scanned"] = scanned
 
+    from .c02 import positional_relabel
+    positional_relabel(chk, "LAYOUT.positional")
     _check_defaults(chk, concrete, cfg_cache)
     _check_canonical(chk)
     chk.floor("NAMES.literal.scan", 60)
